@@ -178,6 +178,7 @@ class History:
     def __init__(self, desc):
         self.desc = desc
         self.world = desc["world"]
+        shims.reset_node_table()
         self.disk = Disk()
         self.records = []
         self.src_version = {}
@@ -212,7 +213,8 @@ def sched_epoch():
     return _EPOCH
 
 
-def run_op(hist, op, idx, *, tape=None, uberjob_kwargs=None, client_wrap=None, sim_hook=None):
+def run_op(hist, op, idx, *, tape=None, uberjob_kwargs=None, client_wrap=None, sim_hook=None, built=None,
+           runner=None):
     """Execute one `run` operation under the simulator."""
     import uberjob
 
@@ -225,9 +227,9 @@ def run_op(hist, op, idx, *, tape=None, uberjob_kwargs=None, client_wrap=None, s
     rec.op = op
     rec.idx = idx
     seed = mix_seed(desc["seed"], "op", idx)
-    shims.install_node_hash(sc.get("salt", 0) + idx)
-    gc_was = gc.isenabled()
-    built = build(world)
+    if built is None:
+        shims.install_node_hash(sc.get("salt", 0) + idx)
+        built = build(world)
     strategy = ("tape", tape) if tape is not None else tuple(sc["strategy"])
     sim = sched.Sim(
         seed,
@@ -300,7 +302,10 @@ def run_op(hist, op, idx, *, tape=None, uberjob_kwargs=None, client_wrap=None, s
     def client():
         sim.log("run-enter")
         try:
-            out = uberjob.run(built.plan, **kwargs)
+            if runner is not None:
+                out = runner(built, kwargs)
+            else:
+                out = uberjob.run(built.plan, **kwargs)
         except sched.SimAbort:
             raise
         except BaseException as e:
